@@ -1304,22 +1304,15 @@ class Interp:
             key = (r.name, c.name)
             m.sets.append(f"{key} mask={mk[0]}")
             hits = [b for b in m.blocks if (b.row.name, b.col.name) == key]
-            if len(hits) > 1:
+            exact = [b for b in hits if b.mask == mk[0]]
+            if len(exact) > 1:
                 raise Unsupported(f"sparse store on duplicated position {key}")
-            if hits:
-                b = hits[0]
-                if b.mask == mk[0]:
-                    b.val = v
-                elif mk[0] is None:
-                    # unmasked store over a masked pattern: writes rows the
-                    # builder excluded -> new entries appear
-                    b.val = v
-                    b.mask = None
-                    m.sets.append(f"!pattern-grew {key}")
-                else:
-                    # store restricted by a different mask than the builder's
-                    m.blocks.append(Block(r, c, v, mk[0]))
-                    m.sets.append(f"!mask-mismatch {key}: built {b.mask}, stored {mk[0]}")
+            if exact:
+                exact[0].val = v
+            elif hits:
+                # the store is restricted by a different mask than the pattern was built with
+                m.sets.append(f"!mask-mismatch {key}: built {[b.mask for b in hits]}, stored {mk[0]}")
+                m.blocks.append(Block(r, c, v, mk[0]))
             else:
                 m.blocks.append(Block(r, c, v, mk[0]))
                 m.sets.append(f"!new-position {key}")
